@@ -185,6 +185,51 @@ def run(ctx, rep):
         rep.ob("C20.single-read_dir", "read_dir(arg)", "ok" if ok and not in_loop else "violated",
                "origins=%s in_loop=%s" % (sorted(o), in_loop), c.span, fn=gfn.path)
 
+    # clause 4b: DIR is the directory the user named.  The callers of clean_command hand it the command-line argument itself: nothing computes a
+    # different spelling first (dropping `.` components is harmless, folding `\\` into `/` names another directory on Unix, where `\\` is an
+    # ordinary character of a file name)
+    callers = []
+    for gfn in F.all_fns():
+        for c in gfn.calls_to(entry):
+            callers.append((gfn, c))
+    rep.floor("C20.dir-as-given callers of clean_command", len(callers), 1)
+    for gfn, c in callers:
+        l = op_local(c.args[0]) if c.args else None
+        oc = rules.origin_calls(gfn, l) if l is not None else []
+        # (the parsed command line itself is where the argument comes from)
+        made = sorted({mir.short(x.callee()) for x in oc if not mir.strip_generics(x.callee()).startswith("clap_builder::derive::Parser::")
+                       and not mir.strip_generics(x.callee()).startswith("clap::")})
+        if not oc:
+            rep.ob("C20.dir-as-given", "%s: where the directory comes from" % mir.short(gfn.path), "undecided", "no call among the origins of the argument", c.span,
+                   fn=gfn.path, key="C20.dir-as-given|%s" % mir.short(gfn.path))
+            continue
+        # a helper in between is judged by what it does to the text: rewriting characters (replace / trim / case) changes which directory is named -
+        # violated; anything else (dropping `.` components keeps the directory) is left undecided, never alarmed
+        REWRITES = ("::replace", "::replacen", "::to_lowercase", "::to_uppercase", "::to_ascii_lowercase", "::to_ascii_uppercase", "::trim",
+                    "::trim_start", "::trim_end", "::trim_matches", "::trim_start_matches", "::trim_end_matches", "::strip_prefix", "::strip_suffix")
+        rewriting = []
+        for x in oc:
+            h = F.fn(x.callee())
+            seen, work = set(), [h] if h is not None else []
+            while work:
+                g2 = work.pop()
+                if g2.path in seen:
+                    continue
+                seen.add(g2.path)
+                for bodyfn in [g2] + F.closures_of(g2):
+                    for c2 in bodyfn.calls():
+                        n2 = mir.strip_generics(c2.callee())
+                        if n2.endswith(REWRITES) and ("str" in n2 or "String" in n2):
+                            rewriting.append("%s in %s" % (mir.short(n2), mir.short(g2.path)))
+                        h2 = F.fn(c2.callee())
+                        if h2 is not None and h2.path.startswith("mscript::") and len(seen) < 12:
+                            work.append(h2)
+        st = "ok" if not made else ("violated" if rewriting else "undecided")
+        rep.ob("C20.dir-as-given", "%s hands clean_command the path argument as the user gave it" % mir.short(gfn.path), st,
+               ("the directory is the result of %s%s: `mscript clean` works on a directory the user did not name whenever the two spellings differ "
+                "(on Unix `gen\\v1` is a directory of that name, not `v1` inside `gen`)" % (made, (", which rewrites the text (%s)" % sorted(set(rewriting))[:3]) if rewriting else ""))
+               if made else "", c.span, fn=gfn.path, key="C20.dir-as-given|%s" % mir.short(gfn.path))
+
     # clause 2, 3: every remove_file is guarded
     removes = []
     for gfn in local_reach:
